@@ -283,14 +283,22 @@ impl Janitor {
       return;
     }
     let cost_to_free = current_cost - context.capacity;
-    let (victims, cost_released) = context.cache_policy[shard_index].evict(cost_to_free);
+    let (victims, _policy_cost_released) = context.cache_policy[shard_index].evict(cost_to_free);
     if victims.is_empty() {
       return;
     }
+    // Account for what was actually taken out of the map, not for what the policy believed
+    // it was tracking: a victim may already have been removed by a user thread (or may never
+    // have been resident), and subtracting its recorded cost anyway makes current_cost drift
+    // below the resident total, after which the capacity gate stops evicting.
+    let mut removed_cost = 0u64;
+    let mut removed_count = 0u64;
     {
       let mut guard = shard.map.write();
       for key in &victims {
         if let Some(removed) = guard.remove(key) {
+          removed_cost += removed.cost();
+          removed_count += 1;
           if let Some(sender) = &context.notification_sender {
             let _ = sender.try_send((key.clone(), removed.value(), EvictionReason::Capacity));
           }
@@ -300,11 +308,11 @@ impl Janitor {
     context
       .metrics
       .evicted_by_capacity
-      .fetch_add(victims.len() as u64, Ordering::Relaxed);
+      .fetch_add(removed_count, Ordering::Relaxed);
     context
       .metrics
       .current_cost
-      .fetch_sub(cost_released, Ordering::Relaxed);
+      .fetch_sub(removed_cost, Ordering::Relaxed);
   }
 
   /// Signals the janitor thread to stop.
